@@ -217,6 +217,9 @@ def base_cases():
     c.append(F("f14", "int", [P("int_v", "a")], overload=0))
     c.append(F("f14", "int", [P("double_v", "a")], overload=1))
     c.append(F("f14", "int", [P("int_v", "a"), P("cstr_in", "s")], overload=2))
+    # a string overload beside a bool overload: a 'const char *' handed to C++ would prefer the bool one
+    c.append(F("f26", "int", [P("str_cref", "s")], overload=0))
+    c.append(F("f26", "int", [P("bool_v", "b")], overload=1))
     c.append(F("f15", "T", [P("T_v", "a")], template=["int", "double"]))
     c.append(F("f16", "bool", [P("bool_pinout", "flag"), P("bool_v", "g")]))
     # default_arg_suffix naming only the shortest form (docs/reference.rst): the other forms keep their numbers
